@@ -144,6 +144,11 @@ pub fn crashes() -> Vec<(String, String)> {
     EXEC.with(|e| e.borrow().crashes.clone())
 }
 
+/// True once any task of this run has panicked.
+pub fn has_crashed() -> bool {
+    EXEC.with(|e| !e.borrow().crashes.is_empty())
+}
+
 pub fn task_alive(id: TaskId) -> bool {
     EXEC.with(|e| {
         let e = e.borrow();
